@@ -209,8 +209,8 @@ def run(c, facts, tier):
     # two top-level forms
     forms = sk.get("top_forms") if sk else None
     c.ob("C04.balanced", "CompiledExpression::scheme", "exactly two top-level forms", forms is not None and len(forms) == 2 and forms[0].startswith("(use-modules") and forms[1].startswith("(let*"), "top-level forms: %s" % ([f[:30] for f in forms] if forms else None))
-    c.floor("emission sites", len(sites), 150)
-    c.floor("holes examined", nholes, 120)
+    c.floor("emission sites", len(sites), 80)
+    c.floor("holes examined", nholes, 60)
     fx = emit.scan_scheme([("c", '(streq? "'), ("h", emit.H("payload", "x", enum="Test", variant="Name", idx=0, ty="String")), ("c", '" s)')])
     c.control("C04.taint", any(ins and emit.tainted(h) for h, ins, _, _ in fx["holes"]), "fixture (streq? \"{String payload}\" s) is reported as a raw tainted hole inside a literal")
     fx2 = emit.scan_scheme([("c", "(and (a) (b)")])
